@@ -107,6 +107,9 @@ def handler : Handler S where
     -- an exporter / processor whose Consume returns an error (after recording / forwarding): routing does not change
     -- (every next consumer is still called once — fan-out law, property C06), so the model has nothing to do
     | ["failconsume", _] => (s, [])
+    -- the context of the injected payload (live / cancelled / expired / cancelled by a component mid-route): routing does
+    -- not depend on it, the model has nothing to do
+    | ["ctx", _] => (s, [])
     | ["build"] =>
       let b := build s.cfg
       let s := { s with built := some b, es := some (flowEdges s.cfg) }
